@@ -1,8 +1,38 @@
 package main
 
-import "bytes"
+import (
+	"bytes"
+	"fmt"
+	"strings"
+)
 
 // facts: per-package structural-fact extractors (AST queries). Each writes Lean
 // definitions and returns an error when a declaration it relies on is not found
 // (a broken tie, reported — never silently skipped).
 var facts = map[string]func(*pkgInfo, *bytes.Buffer) error{}
+
+// sections runs independent groups of facts: a group whose declarations are not found writes nothing but a
+// comment naming what is missing (so only the models that use ITS definitions stop building — a property whose
+// model does not mention them is unaffected) and the run goes on with the next group. The errors are joined
+// and still reported as a broken tie of the package.
+type sections struct {
+	w    *bytes.Buffer
+	errs []string
+}
+
+func (s *sections) run(name string, fn func(w *bytes.Buffer) error) {
+	var b bytes.Buffer
+	if err := fn(&b); err != nil {
+		fmt.Fprintf(s.w, "-- FACTS MISSING (%s): %s\n\n", name, strings.ReplaceAll(err.Error(), "\n", " "))
+		s.errs = append(s.errs, name+": "+err.Error())
+		return
+	}
+	s.w.Write(b.Bytes())
+}
+
+func (s *sections) err() error {
+	if len(s.errs) == 0 {
+		return nil
+	}
+	return fmt.Errorf("%s", strings.Join(s.errs, "; "))
+}
